@@ -52,6 +52,28 @@ for it in range(N // 3):
         elif after is None or after[0].get(key) != str(v): bad('assignment to an attrpath-derived leaf through the nested mapping is not shown by the rebuilt text', doc=text, ops=[['assign', list(key), v]], text=src.rebuild())
     except Exception as e:
         bad('nested assignment crashed: %s %s' % (type(e).__name__, e), doc=text)
+# ---- scope mapping emptied and refilled: every let with 1..3 bindings, every deletion order, then a new key (third round of seeds) ----
+import itertools
+for nb in (1, 2, 3):
+    names = ['a', 'b', 'c'][:nb]
+    for order in itertools.permutations(names):
+        for body in ('{ x = 2; }', '{\n  x = 2;\n}'):
+            text = 'let\n' + ''.join('  %s = %d;\n' % (n_, i) for i, n_ in enumerate(names)) + 'in\n' + body + '\n'
+            src = parse(text); m = src.expressions[0].scope; ops = []; count('scope/empty-and-refill')
+            try:
+                for k in order:
+                    del m[k]; ops.append(['scope', 'del', k])
+                    ly = read_layers(src.rebuild()); left = set(names) - {o[2] for o in ops}
+                    if ly is None or set(ly[0] if ly else {}) != left: bad('scope deletion not shown by the rebuilt text', doc=text, ops=ops[:], text=src.rebuild()); break
+                else:
+                    m['fresh'] = 7; ops.append(['scope', 'set', 'fresh'])
+                    ly = read_layers(src.rebuild())
+                    if not ly or ly[0] != {'fresh': '7'}: bad('after emptying the let scope, an assignment is not shown alone by the rebuilt text', doc=text, ops=ops[:], text=src.rebuild())
+                    for k in names:
+                        try: m[k]; bad('a deleted scope key is found again', doc=text, ops=ops[:], key=k)
+                        except KeyError: pass
+            except Exception as e:
+                bad('scope mapping crashed: %s %s' % (type(e).__name__, e), doc=text, ops=ops[:])
 for it in range(N):
     text, shape = gen(); src = parse(text); ops = []
     for step in range(R.randint(1, 6)):
@@ -60,7 +82,7 @@ for it in range(N):
         case = dict(doc=text, ops=ops)
         try:
             if target == 'scope':
-                body = src.expressions[0]; m = body.scope; known = read_layers(src.rebuild())[0]
+                body = src.expressions[0]; m = body.scope; _ly = read_layers(src.rebuild()); known = _ly[0] if _ly else {}      # the let disappears with its last binding and comes back with the next assignment
                 k = R.choice(sorted(known) + ['z']); action = R.choice(['get', 'set', 'del'])
                 ops.append(['scope', action, k]); count('scope/' + action)
                 if action == 'get':
@@ -72,12 +94,12 @@ for it in range(N):
                     after = read_layers(src.rebuild())
                     if not after or after[0].get(k) != str(v) or set(after[0]) != set(known) | {k}: bad('scope assignment not shown by the rebuilt text', text=src.rebuild(), **case)
                 else:
-                    if k in known and len(known) > 1:
+                    if k in known:
                         del m[k]
                         try: m[k]; bad('scope lookup succeeds after del', **case)
                         except KeyError: pass
                         after = read_layers(src.rebuild())
-                        if not after or set(after[0]) != set(known) - {k}: bad('scope deletion not shown by the rebuilt text', text=src.rebuild(), **case)
+                        if after is None or set(after[0] if after else {}) != set(known) - {k}: bad('scope deletion not shown by the rebuilt text', text=src.rebuild(), **case)
                     elif k not in known:
                         before = src.rebuild()
                         try: del m[k]; bad('del of a missing scope key does not raise', **case)
